@@ -43,7 +43,8 @@ GhostBlocks(m, r) ==
            /\ H[q].r.segs[j].t # r.segs[k].t
 AddVerdict(e) ==
   LET wf == P_WellFormed(H, e.m, e.r) IN
-  IF e.accepted = wf THEN "ok"
+  IF e.skipped THEN "ok"          \* a multi-method call stopped at an earlier method: never attempted
+  ELSE IF e.accepted = wf THEN "ok"
   ELSE IF "D11" \in Dev /\ wf /\ ~e.accepted /\ GhostBlocks(e.m, e.r) THEN "D11"
   ELSE "bad"
 TAddRoute == /\ IsEv("AddRoute")
@@ -77,17 +78,8 @@ WinnerWithG(m, p, orc, Elig(_, _), G) ==
                            THEN { [reg |-> i, short |-> TRUE, c |-> c] : c \in Aligns(ShortSegs(r), 1, p, 1, orc) } ELSE {})
                  : i \in Acc(H, m) }
       K(w) == KeyG(H, m, w.reg, FormSegs(H, w), w.c, G)
-  IN IF W = {} THEN NoWitness ELSE CHOOSE w \in W : \A v \in W : v = w \/ KeyLess(K(w), K(v), 1)
+  IN IF W = {} THEN NoWitness ELSE CHOOSE w \in W : \A v \in W : v = w \/ Before(K(w), w, K(v), v)
 WinnerWith(m, p, orc, Elig(_, _)) == WinnerWithG(m, p, orc, Elig, NoGhosts)
-WinnerWithOLD(m, p, orc, Elig(_, _)) ==
-  LET W == UNION { LET r == H[i].r IN
-                     (IF Elig(i, FALSE) THEN { [reg |-> i, short |-> FALSE, c |-> c] : c \in Aligns(LongSegs(r), 1, p, 1, orc) } ELSE {})
-                     \cup (IF IsOptional(r) /\ Elig(i, TRUE)
-                           THEN { [reg |-> i, short |-> TRUE, c |-> c] : c \in Aligns(ShortSegs(r), 1, p, 1, orc) } ELSE {})
-                 : i \in Acc(H, m) }
-      K(w) == Key(H, m, w.reg, FormSegs(H, w), w.c)
-  IN IF W = {} THEN NoWitness ELSE CHOOSE w \in W : \A v \in W : v = w \/ KeyLess(K(w), K(v), 1)
-
 \* registrations of the same Flame-level call (Routes / Any / Get under AutoHead) share `call`;
 \* the handle returned to the user holds the leaf of the LAST method only (D15)
 LastOfCall(i) == \A q \in 1..Len(H) : H[q].call = H[i].call => q <= i
@@ -99,7 +91,7 @@ ServeVerdict(e) ==
       w == WinnerWith(e.m, e.p, orc, ElP)
       good(v) == /\ v.reg = e.reg
                  /\ (v.reg # 0 => /\ P_ParamsOK(H, v, e.p, e.dec, e.decok, e.params, orc)
-                                  /\ (IF v.short THEN e.rb_without ELSE e.rb_with) = P_Build(H[v.reg].r, e.params, ~v.short))
+                                  /\ (e.rbok => (IF v.short THEN e.rb_without ELSE e.rb_with) = P_Build(H[v.reg].r, e.params, ~v.short)))
       sane == ~e.panicked /\ e.chains = 1
       \* D6: the implicit short-form leaf is never gated
       w6 == WinnerWith(e.m, e.p, orc, LAMBDA i, s : s \/ ElP(i, s))
@@ -114,15 +106,17 @@ ServeVerdict(e) ==
       multi(v) == v.reg # 0 /\ \E j \in 1..Len(H[v.reg].r.segs) : \E q \in 1..Len(H[v.reg].r.segs[j].els) : H[v.reg].r.segs[j].els[q].g = 2
       goodNoRb(v) == /\ v.reg = e.reg /\ v.reg # 0 /\ P_ParamsOK(H, v, e.p, e.dec, e.decok, e.params, orc)
       w11 == WinnerWithG(e.m, e.p, orc, ElP, Ghosts(e.m))
+      \* an open finding may coincide with D5 / D3 on the same request
+      goodX(v) == IF "D5" \in Dev /\ multi(v) THEN goodNoRb(v) ELSE good(v)
   IN IF sane /\ good(w) THEN "ok"
      ELSE IF ~sane THEN "bad"
      ELSE IF "D5" \in Dev /\ multi(w) /\ goodNoRb(w) THEN "D5"
-     ELSE IF "D6" \in Dev /\ w6 # w /\ w6.short /\ good(w6) THEN "D6"
-     ELSE IF "D15" \in Dev /\ w15 # w /\ good(w15) THEN "D15"
+     ELSE IF "D6" \in Dev /\ w6 # w /\ w6.short /\ goodX(w6) THEN "D6"
+     ELSE IF "D15" \in Dev /\ w15 # w /\ goodX(w15) THEN "D15"
      ELSE IF "D7" \in Dev /\ e.reg \in fastHit /\ IsOptional(H[e.reg].r) THEN "D7"
      ELSE IF "D16" \in Dev /\ e.reg \in fastHit /\ ~IsOptional(H[e.reg].r) /\ w.reg # 0 /\ w.reg < e.reg
                            /\ IsOptional(H[w.reg].r) /\ ~w.short THEN "D16"
-     ELSE IF "D11" \in Dev /\ DOMAIN Ghosts(e.m) # {} /\ w11 # w /\ good(w11) THEN "D11"
+     ELSE IF "D11" \in Dev /\ DOMAIN Ghosts(e.m) # {} /\ w11 # w /\ goodX(w11) THEN "D11"
      ELSE IF "D3" \in Dev /\ grp THEN "D3"
      ELSE "bad"
 TServe == /\ IsEv("Serve") /\ Verdict(ServeVerdict(Tr[l])) /\ UNCHANGED <<H, names>>
